@@ -726,10 +726,6 @@ func fixed() []Case {
 			cs = append(cs, Case{Entry: e, Cfg: cfg, Class: "fixed/valid", Base: "prog:" + strconv.Itoa(p)})
 		}
 	}
-	// expression nesting to a depth at which the recursive-descent compiler
-	// needs more than Go's 1 GB stack; takes ~35-60 s, so its own time bound
-	cs = append(cs, Case{Entry: "run", Cfg: cfg, Class: "fixed/deep", TimeoutS: 150,
-		Segs: []Seg{{S: "package main\nfunc main() {\n\tx := "}, {S: "(", N: 300000}, {S: "1"}, {S: ")", N: 300000}, {S: "\n\t_ = x\n}\n"}}})
 	return cs
 }
 
@@ -906,7 +902,7 @@ func (p *pool) exec(c Case, src []byte) verdict {
 		}
 		if v.res.Phase == "go-panic" {
 			v.status = "crash"
-			v.crash = workerproc.Crash{Kind: "panic", Header: "panic: " + v.res.GoPanic, Sig: "panic:" + workerproc.PanicSite(v.res.Stack), Trace: v.res.Stack}
+			v.crash = workerproc.Crash{Kind: "panic", Header: "panic: " + v.res.GoPanic, Sig: "panic:" + workerproc.PanicSite(v.res.Stack) + " [" + workerproc.PanicClass(v.res.GoPanic) + "]", Trace: v.res.Stack}
 			v.observed = "Go panic recovered by the harness around compile+run: " + v.res.GoPanic + "\n" + clip(v.res.Stack, 3000)
 			return v
 		}
@@ -1032,9 +1028,6 @@ func oracle(c Case) vkit.Outcome {
 		out.Inconclusive = v.why
 	case "crash":
 		outcome = "crash"
-		if c.Entry == "server" && v.res.Phase == "handler-panic-recovered" {
-			// never reached: runServer reports that phase with status ok
-		}
 	}
 	if c.Entry == "server" && v.status == "ok" && v.res.Phase == "handler-panic-recovered" {
 		// router.ServeHTTP recovers this and answers 500: the process lives
